@@ -334,7 +334,8 @@ class MTVRPEnv(RL4COEnvBase):
             curr_length[next_node == 0] = 0.0  # reset length for depot
 
             curr_time = torch.max(
-                curr_time + dist, gather_by_index(td["time_windows"], next_node)[..., 0]
+                curr_time + dist / td["speed"].squeeze(-1),
+                gather_by_index(td["time_windows"], next_node)[..., 0],
             )
             assert torch.all(
                 curr_time <= gather_by_index(td["time_windows"], next_node)[..., 1]
